@@ -266,7 +266,8 @@ class Check:
         open(os.path.join(self.work, "harness.log"), "w").write(out)
         self.ev["harness_run_s"] = round(dt, 1)
         if rc != 0:
-            self.broken.append({"kind": "harness-run", "item": self.cfg["bin"], "detail": out[-1500:]})
+            self.broken.append({"kind": "harness-run", "item": self.cfg["bin"],
+                                "detail": "harness exited with status %s (crash, abort or timeout of the driver binary itself): %s" % (rc, out[-1500:])})
             self.harness_ok = False
             return
         self.cases = [json.loads(l) for l in open(os.path.join(out_dir, "cases.jsonl"))]
